@@ -138,7 +138,10 @@ LISTED = {
     # boundary simplex
     "ccd-touching-within-tolerance": ("geomDistance-differs-from-reference", "geomDistance-differs-from-contact-dist",
                                       "contact-dist-differs-from-reference", "contact-normal-does-not-realise-reported-distance",
-                                      "contact-normal-reversed"),
+                                      "contact-normal-reversed",
+                                      # the same wrong depth seen through the universal invariant (a contact reported deeper than the
+                                      # geoms overlap along its own normal): 0.0295 for touching cylinders, the write-up's own witness
+                                      "contact-deeper-than-geometry-along-its-normal"),
 }
 LISTED["ccd-touching-within-tolerance"] += ("geomDistance-not-symmetric",)      # only with the tolerance counterfactual, see check_pose
 # findings/C15-epa-cylinder-cap-exactly-parallel.md: EPA leaves unconverged (depth too shallow) when a cylinder's axis is EXACTLY
@@ -148,6 +151,7 @@ LISTED["ccd-cylinder-cap-exactly-parallel-to-flat-face"] = ("geomDistance-differ
 # the margin (mjc_Convex contacts)
 _TOUCH_PATH = {"geomDistance-differs-from-reference": ("gd",), "geomDistance-differs-from-contact-dist": ("gd", "c"),
                "contact-dist-differs-from-reference": ("c",), "contact-normal-does-not-realise-reported-distance": ("c",),
+               "contact-deeper-than-geometry-along-its-normal": ("c",),
                "contact-normal-reversed": ("c",)}
 
 
